@@ -283,6 +283,9 @@ func C13TransformCache() {
 		zz.Assume(k == f)
 	}
 	fo := zzValidate(zzSchema(k))
+	if zz.Param("FREEZE", 0) == 1 {
+		zz.Freeze(fo)
+	}
 	rec := zzRecord()
 	ctx := &transformctx.Ctx{}
 	on := NewParseCtx(ctx, zzFuncs, nil)
